@@ -514,6 +514,8 @@ def e14_bad_switch(tree, pts, ins, pick):
             return None
         used = {c.get("value") for c in i.ins["cases"]}
         cand = [str(v["ord"]) for v in r["decl"]["values"]]
+        if not cand:
+            return None         # an enum without values has no declared ordinal to misuse
         case["value"] = pick(cand)
     return mode + ":" + Point.placement.fget(i)
 
